@@ -96,7 +96,7 @@ def build(cfg, bins=('lyrun',)):
 
 
 class Res:
-    __slots__ = ('rc', 'out', 'err', 'stats', 'outcome', 'detail', 'wall')
+    __slots__ = ('rc', 'out', 'err', 'stats', 'outcome', 'detail', 'wall', 'sched')
 
     def __init__(self):
         self.rc = None
@@ -106,6 +106,7 @@ class Res:
         self.outcome = None
         self.detail = ''
         self.wall = 0.0
+        self.sched = []
 
     def brief(self):
         return {'outcome': self.outcome, 'detail': self.detail, 'rc': self.rc,
@@ -220,6 +221,16 @@ def lyrun(binpath, target, opts=(), stdin_text=None, timeout=30, cwd=None, env_e
         except ValueError:
             r.stats = None
         err = err[:idx].rstrip('\n') + '\n'
+    if 'VERIF-SCHED ' in err:
+        keep = []
+        sched = []
+        for line in err.split('\n'):
+            if line.startswith('VERIF-SCHED '):
+                sched.append(line[len('VERIF-SCHED '):])
+            else:
+                keep.append(line)
+        err = '\n'.join(keep)
+        r.sched = sched
     r.out = out
     r.err = err
     return classify(r)
@@ -326,6 +337,31 @@ class Check:
         self.reach_failures = []
         self.findings = load_findings()
         shutil.rmtree(os.path.join(REPLAY, prop), ignore_errors=True)
+
+    def run_witnesses(self, lyrun_bin):
+        """Re-run the committed witness of every known finding of this property:
+        still failing -> counted (KNOWN-FINDING line), no longer failing -> STALE-FINDING."""
+        for f in self.findings['findings']:
+            if self.prop not in f['properties'] or not f.get('witness'):
+                continue
+            path = os.path.join(VERIF, f['witness'])
+            r = lyrun(lyrun_bin, path, ['--steps', '5000000'], timeout=60, cwd=os.path.dirname(path))
+            exp = f.get('witness_expect', {})
+            still = True
+            if 'outcome' in exp and not re.search(exp['outcome'], r.outcome or ''):
+                still = False
+            if 'detail' in exp and not re.search(exp['detail'], r.detail or ''):
+                still = False
+            if 'stdout' in exp and not re.search(exp['stdout'], r.out):
+                still = False
+            if 'stderr' in exp and not re.search(exp['stderr'], r.err):
+                still = False
+            if still:
+                self.known.setdefault(f['id'], {'what': f['what_fails'], 'n': 0})
+                self.known[f['id']]['n'] += 1
+            else:
+                print('STALE-FINDING: property=%s %s no longer fails on its witness %s (outcome %s)' % (
+                    self.prop, f['id'], f['witness'], r.outcome))
 
     def count(self, key, n=1):
         self.counters[key] = self.counters.get(key, 0) + n
